@@ -88,6 +88,10 @@ struct Ctx {
 int slot_of(Ctx& c, Item* p) {
   return (int)(((char*)p - c.slot0) / (long)c.stride);
 }
+// element i of a contiguous range of slots (slots are cache-line strided)
+Item& at(Ctx& c, Item* b, int i) {
+  return *(Item*)((char*)b + (long)c.stride * i);
+}
 
 std::string vals_json(const std::vector<int>& v) {
   std::string s = "[";
@@ -96,30 +100,28 @@ std::string vals_json(const std::vector<int>& v) {
 }
 
 // producer side callback over a contiguous range
-void fill(Ctx& c, Item* b, Item* e, const char* role) {
+void fill(Ctx& c, Item* b, int n, const char* role) {
   int slot = slot_of(c, b);
-  int n = (int)(e - b);
   std::vector<int> vals;
   for (int i = 0; i < n; i++) vals.push_back(c.tid * 100 + (++c.next_val));
   vsched::eventf(true, "\"k\":\"cbb\",\"role\":\"%s\",\"slot\":%d,\"n\":%d,\"vals\":%s", role, slot, n, vals_json(vals).c_str());
-  for (int i = 0; i < n; i++) b[i].v = vals[(size_t)i];
+  for (int i = 0; i < n; i++) at(c, b, i).v = vals[(size_t)i];
   bool intact = true;
   vsched::event("\"k\":\"cbm\"", true); // a point in the middle of the callback
-  for (int i = 0; i < n; i++) intact = intact && b[i].v == vals[(size_t)i];
+  for (int i = 0; i < n; i++) intact = intact && at(c, b, i).v == vals[(size_t)i];
   vsched::eventf(true, "\"k\":\"cbe\",\"role\":\"%s\",\"slot\":%d,\"n\":%d,\"vals\":%s,\"intact\":%s", role, slot, n, vals_json(vals).c_str(), intact ? "true" : "false");
 }
 
 // consumer side callback
-void drain(Ctx& c, Item* b, Item* e, const char* role) {
+void drain(Ctx& c, Item* b, int n, const char* role) {
   int slot = slot_of(c, b);
-  int n = (int)(e - b);
   std::vector<int> vals;
-  for (int i = 0; i < n; i++) vals.push_back(b[i].v);
+  for (int i = 0; i < n; i++) vals.push_back(at(c, b, i).v);
   vsched::eventf(true, "\"k\":\"cbb\",\"role\":\"%s\",\"slot\":%d,\"n\":%d,\"vals\":%s", role, slot, n, vals_json(vals).c_str());
   vsched::event("\"k\":\"cbm\"", true);
   bool intact = true;
-  for (int i = 0; i < n; i++) intact = intact && b[i].v == vals[(size_t)i];
-  for (int i = 0; i < n; i++) b[i].v = -7; // consumed marker: a later reader of a stale slot sees it
+  for (int i = 0; i < n; i++) intact = intact && at(c, b, i).v == vals[(size_t)i];
+  for (int i = 0; i < n; i++) at(c, b, i).v = -7; // consumed marker: a later reader of a stale slot sees it
   vsched::eventf(true, "\"k\":\"cbe\",\"role\":\"%s\",\"slot\":%d,\"n\":%d,\"vals\":%s,\"intact\":%s", role, slot, n, vals_json(vals).c_str(), intact ? "true" : "false");
 }
 
@@ -129,39 +131,39 @@ void run_op(Ctx& c, const OpSpec& op) {
   long res = -1;
   vsched::eventf(true, "\"k\":\"call\",\"op\":\"%s\",\"n\":%d,\"fl\":%d", op.name.c_str(), op.n, op.fl);
   if (op.name == "pu") {
-    with_flags3(op.fl, [&](auto C, auto W, auto K) { q.push<C.value, W.value, K.value>([&](Item& it) { fill(c, &it, &it + 1, "push"); }); });
+    with_flags3(op.fl, [&](auto C, auto W, auto K) { q.push<C.value, W.value, K.value>([&](Item& it) { fill(c, &it, 1, "push"); }); });
     res = 1;
   } else if (op.name == "po") {
-    with_flags3(op.fl, [&](auto C, auto W, auto K) { q.pop<C.value, W.value, K.value>([&](Item& it) { drain(c, &it, &it + 1, "pop"); }); });
+    with_flags3(op.fl, [&](auto C, auto W, auto K) { q.pop<C.value, W.value, K.value>([&](Item& it) { drain(c, &it, 1, "pop"); }); });
     res = 1;
   } else if (op.name == "tpu") {
-    with_flags2(op.fl, [&](auto C, auto K) { res = q.try_push<C.value, K.value>([&](Item& it) { fill(c, &it, &it + 1, "push"); }); });
+    with_flags2(op.fl, [&](auto C, auto K) { res = q.try_push<C.value, K.value>([&](Item& it) { fill(c, &it, 1, "push"); }); });
   } else if (op.name == "tpo") {
-    with_flags2(op.fl, [&](auto C, auto K) { res = q.try_pop<C.value, K.value>([&](Item& it) { drain(c, &it, &it + 1, "pop"); }); });
+    with_flags2(op.fl, [&](auto C, auto K) { res = q.try_pop<C.value, K.value>([&](Item& it) { drain(c, &it, 1, "pop"); }); });
   } else if (op.name == "pun") {
-    with_flags3(op.fl, [&](auto C, auto W, auto K) { q.push_n<C.value, W.value, K.value>([&](It b, It e) { fill(c, &*b, &*b + (e - b), "push"); }, (size_t)op.n); });
+    with_flags3(op.fl, [&](auto C, auto W, auto K) { q.push_n<C.value, W.value, K.value>([&](It b, It e) { fill(c, &*b, (int)(e - b), "push"); }, (size_t)op.n); });
     res = op.n;
   } else if (op.name == "pon") {
-    with_flags3(op.fl, [&](auto C, auto W, auto K) { q.pop_n<C.value, W.value, K.value>([&](It b, It e) { drain(c, &*b, &*b + (e - b), "pop"); }, (size_t)op.n); });
+    with_flags3(op.fl, [&](auto C, auto W, auto K) { q.pop_n<C.value, W.value, K.value>([&](It b, It e) { drain(c, &*b, (int)(e - b), "pop"); }, (size_t)op.n); });
     res = op.n;
   } else if (op.name == "tpun") {
-    with_flags2(op.fl, [&](auto C, auto K) { res = (long)q.try_push_n<C.value, K.value>([&](It b, It e) { fill(c, &*b, &*b + (e - b), "push"); }, (size_t)op.n); });
+    with_flags2(op.fl, [&](auto C, auto K) { res = (long)q.try_push_n<C.value, K.value>([&](It b, It e) { fill(c, &*b, (int)(e - b), "push"); }, (size_t)op.n); });
   } else if (op.name == "tpon") {
-    with_flags2(op.fl, [&](auto C, auto K) { res = (long)q.try_pop_n<C.value, K.value>([&](It b, It e) { drain(c, &*b, &*b + (e - b), "pop"); }, (size_t)op.n); });
+    with_flags2(op.fl, [&](auto C, auto K) { res = (long)q.try_pop_n<C.value, K.value>([&](It b, It e) { drain(c, &*b, (int)(e - b), "pop"); }, (size_t)op.n); });
   } else if (op.name == "cpun") {
     // compensating push: when the queue is full the reverse callback plays consumer
-    q.push_n([&](It b, It e) { fill(c, &*b, &*b + (e - b), "push"); }, [&](It b, It e) { drain(c, &*b, &*b + (e - b), "rpop"); }, (size_t)op.n);
+    q.push_n([&](It b, It e) { fill(c, &*b, (int)(e - b), "push"); }, [&](It b, It e) { drain(c, &*b, (int)(e - b), "rpop"); }, (size_t)op.n);
     res = op.n;
   } else if (op.name == "cpon") {
-    q.pop_n([&](It b, It e) { drain(c, &*b, &*b + (e - b), "pop"); }, [&](It b, It e) { fill(c, &*b, &*b + (e - b), "rpush"); }, (size_t)op.n);
+    q.pop_n([&](It b, It e) { drain(c, &*b, (int)(e - b), "pop"); }, [&](It b, It e) { fill(c, &*b, (int)(e - b), "rpush"); }, (size_t)op.n);
     res = op.n;
   } else if (op.name == "xpon") {
     struct ::timespec ts;
     ts.tv_sec = c.to_us / 1000000;
     ts.tv_nsec = (c.to_us % 1000000) * 1000;
     long t0 = (long)(vsched::now_ns() / 1000);
-    if (op.fl & 1) res = (long)q.try_pop_n_exclusively_until<true>([&](It b, It e) { drain(c, &*b, &*b + (e - b), "pop"); }, (size_t)op.n, &ts);
-    else res = (long)q.try_pop_n_exclusively_until<false>([&](It b, It e) { drain(c, &*b, &*b + (e - b), "pop"); }, (size_t)op.n, &ts);
+    if (op.fl & 1) res = (long)q.try_pop_n_exclusively_until<true>([&](It b, It e) { drain(c, &*b, (int)(e - b), "pop"); }, (size_t)op.n, &ts);
+    else res = (long)q.try_pop_n_exclusively_until<false>([&](It b, It e) { drain(c, &*b, (int)(e - b), "pop"); }, (size_t)op.n, &ts);
     vsched::eventf(false, "\"k\":\"timed\",\"t0_us\":%ld,\"t1_us\":%ld,\"to_us\":%ld", t0, (long)(vsched::now_ns() / 1000), c.to_us);
   }
   vsched::eventf(true, "\"k\":\"ret\",\"op\":\"%s\",\"n\":%d,\"res\":%ld", op.name.c_str(), op.n, res);
@@ -198,8 +200,10 @@ void scenario_bq(const vrun::Params& p) {
   {
     std::vector<int> left;
     Item it;
+    long pi = (long)(q._next_push_index.load(std::memory_order_relaxed) - (size_t)base);
+    long ci = (long)(q._next_pop_index.load(std::memory_order_relaxed) - (size_t)base);
     while (q.try_pop<false, false>(it)) left.push_back(it.v);
-    vsched::eventf(false, "\"k\":\"final\",\"left\":%s,\"push_idx\":%ld,\"pop_idx\":%ld", vals_json(left).c_str(), (long)(q._next_push_index.load(std::memory_order_relaxed) - (size_t)base), (long)(q._next_pop_index.load(std::memory_order_relaxed) - (size_t)base));
+    vsched::eventf(false, "\"k\":\"final\",\"left\":%s,\"push_idx\":%ld,\"pop_idx\":%ld", vals_json(left).c_str(), pi, ci);
   }
   vsched::finish();
 }
